@@ -576,8 +576,9 @@ type obsResult struct {
 	Actor    int        `json:"actor"`
 	TPM      int        `json:"tpm"`
 	Done     bool       `json:"done"`
-	// the definition's action arrays after the run (codes of every slot)
-	ArraysAfter [][][2]int `json:"arrays_after,omitempty"`
+	// the definition's action arrays in which some slot holds another action
+	// object after the run than before it: index -> codes of every slot now
+	ArraysChanged map[int][][2]int `json:"arrays_changed,omitempty"`
 	// "" or how the definition differs from what it was before the run
 	DefChanged string `json:"definition_changed,omitempty"`
 	// "" or which log entry changed after it had been recorded (stepwise runs)
@@ -817,12 +818,24 @@ func (b *built) projectLog() []obsEntry {
 func (b *built) observe(done bool) obsResult {
 	var o obsResult
 	o.Log = b.projectLog()
-	for _, arr := range b.arrays {
-		codes := [][2]int{}
-		for _, a := range arr[:cap(arr)] {
-			codes = append(codes, actionCode(a))
+	for k, arr := range b.arrays {
+		now := arr[:cap(arr)]
+		changed := false
+		for j := range now {
+			if !sameAction(now[j], b.snapArr[k][j]) {
+				changed = true
+			}
 		}
-		o.ArraysAfter = append(o.ArraysAfter, codes)
+		if changed {
+			codes := [][2]int{}
+			for _, a := range now {
+				codes = append(codes, actionCode(a))
+			}
+			if o.ArraysChanged == nil {
+				o.ArraysChanged = map[int][][2]int{}
+			}
+			o.ArraysChanged[k] = codes
+		}
 	}
 	o.DefChanged = b.definitionChanged()
 	co := b.state.CurrentActionCoordinates
@@ -1054,13 +1067,17 @@ func galHObs(o obsResult) string {
 			locs[i] = "(Some (" + gal.Nat(e.Loc[0]) + ", " + gal.Nat(e.Loc[1]) + "))"
 		}
 	}
-	arrs := make([]string, len(o.ArraysAfter))
-	for i, a := range o.ArraysAfter {
+	arrs := []string{}
+	for k := 0; k < len(o.ArraysChanged)+1000 && len(arrs) < len(o.ArraysChanged); k++ {
+		a, ok := o.ArraysChanged[k]
+		if !ok {
+			continue
+		}
 		cs := make([]string, len(a))
 		for j, c := range a {
 			cs[j] = gal.Pair(gal.Z(int64(c[0])), gal.Z(int64(c[1])))
 		}
-		arrs[i] = gal.List(cs)
+		arrs = append(arrs, gal.Pair(gal.Nat(k), gal.List(cs)))
 	}
 	return "(" + gal.List(locs) + ", " + gal.List(arrs) + ")"
 }
@@ -2391,8 +2408,8 @@ func layoutStats(c *gal.Ctx, gc *gCase, o obsResult) {
 		executed[e.Sid] = true
 	}
 	type span struct{ arr, lo, hi int }
-	var lists []span     // lists of executed steps
-	var openers []span   // capacity behind the first part of an executed merged step
+	var lists []span   // lists of executed steps
+	var openers []span // capacity behind the first part of an executed merged step
 	var walk func(s *gStep)
 	seen := map[*gStep]bool{}
 	walk = func(s *gStep) {
